@@ -135,6 +135,9 @@ def slice_with_int_dask_array_on_axis(x, idx, axis):
 
     if np.isnan(x.chunks[axis]).any():
         raise NotImplementedError("Slicing an array with unknown chunks with a dask.array of ints is not supported")
+    # The per-block offsets and ``x_chunks`` below are literals computed from
+    # x's layout as advertised now; pin it so a rewrite of x cannot drift away.
+    x = x.freeze_chunks()
     x_axes = tuple(range(x.ndim))
     idx_axes = (x.ndim,)  # arbitrary index not already in x_axes
     offset_axes = (axis,)
